@@ -90,40 +90,7 @@ def run(F, R, tier):
         attrs = " ".join(a["attrs"])
         r1.site("CoreDID serde attrs %s" % [x for x in a["attrs"] if "serde" in x])
         r1.require("try_from" in attrs, (DID, "serde-try_from"), "CoreDID is deserialised without the validating try_from conversion")
-    # check_validity's guards
-    fn = DID + "::check_validity"
-    h = F.hir(fn)
-    if r1.anchor(h, fn):
-        env = H.Env(h)
-        tree, infos = L.exit_infos(h)
-        for e in infos:
-            if not L.is_success_exit(e):
-                continue
-            tried = {(H.fn_name(c) or "").rsplit("::", 1)[-1] for c in e.tried}
-            r1.require({"valid_method_name", "valid_method_id"} <= tried, (fn, "name-id"), "check_validity can succeed without valid_method_name and valid_method_id: %s" % sorted(tried))
-            seen = {}
-            for c in e.conds:
-                if c[0] != "if" or c[2] is not False:
-                    continue
-                for d in H.disjuncts(c[1]):
-                    inner, neg = H.negated(d)
-                    inner = H.strip(inner)
-                    fns = {f.rsplit("::", 1)[-1] for f in H.called_fns(inner)}
-                    if inner.get("k") == "binary" and inner.get("op") == "Ne" and "scheme" in fns:
-                        seen["scheme"] = True
-                    if neg and "path" in fns and "is_empty" in fns:
-                        seen["path"] = True
-                    if not neg and "fragment" in fns and "is_some" in fns:
-                        seen["fragment"] = True
-                    if not neg and "query" in fns and "is_some" in fns:
-                        seen["query"] = True
-            r1.site("check_validity Ok guarded by: %s" % sorted(seen), e.node.get("sp"))
-            for k in ("scheme", "path", "fragment", "query"):
-                r1.require(seen.get(k), (fn, "guard", k), "check_validity can succeed without rejecting a %s" % ("wrong scheme" if k == "scheme" else "non-empty " + k))
-        for c in H.calls(h, re.compile(r"CoreDID::valid_method_(name|id)$")):
-            oo = H.origins(c["args"][0], env, accessors=BASE_ACC)
-            want = "method" if c["fn"].endswith("name") else "method_id"
-            r1.require(oo == {("param", "did", want)}, (fn, "arg", want), "%s is not applied to did.%s(): %s" % (L.short(c["fn"]), want, sorted(map(str, oo))))
+    check_validity_guards(F, r1)
     r1.floor(7)
 
     # ------------------------------------------------------------------ R2 check before write
@@ -420,3 +387,41 @@ def run(F, R, tier):
                    "valid_method_id validates a percent escape with u8::from_str_radix over `take(2)`: that accepts a truncated escape (\"%4\") and a sign (\"%+4\"), which are not `%` HEXDIG HEXDIG")
     r6.floor(8)
 
+
+
+def check_validity_guards(F, r1):
+    """CoreDID::check_validity: name ✓, id ✓, scheme, and *presence* (not non-emptiness) of path/query/fragment rejected"""
+    # check_validity's guards
+    fn = DID + "::check_validity"
+    h = F.hir(fn)
+    if r1.anchor(h, fn):
+        env = H.Env(h)
+        tree, infos = L.exit_infos(h)
+        for e in infos:
+            if not L.is_success_exit(e):
+                continue
+            tried = {(H.fn_name(c) or "").rsplit("::", 1)[-1] for c in e.tried}
+            r1.require({"valid_method_name", "valid_method_id"} <= tried, (fn, "name-id"), "check_validity can succeed without valid_method_name and valid_method_id: %s" % sorted(tried))
+            seen = {}
+            for c in e.conds:
+                if c[0] != "if" or c[2] is not False:
+                    continue
+                for d in H.disjuncts(c[1]):
+                    inner, neg = H.negated(d)
+                    inner = H.strip(inner)
+                    fns = {f.rsplit("::", 1)[-1] for f in H.called_fns(inner)}
+                    if inner.get("k") == "binary" and inner.get("op") == "Ne" and "scheme" in fns:
+                        seen["scheme"] = True
+                    if neg and "path" in fns and "is_empty" in fns:
+                        seen["path"] = True
+                    if not neg and "fragment" in fns and "is_some" in fns:
+                        seen["fragment"] = True
+                    if not neg and "query" in fns and "is_some" in fns:
+                        seen["query"] = True
+            r1.site("check_validity Ok guarded by: %s" % sorted(seen), e.node.get("sp"))
+            for k in ("scheme", "path", "fragment", "query"):
+                r1.require(seen.get(k), (fn, "guard", k), "check_validity can succeed without rejecting a %s" % ("wrong scheme" if k == "scheme" else "non-empty " + k))
+        for c in H.calls(h, re.compile(r"CoreDID::valid_method_(name|id)$")):
+            oo = H.origins(c["args"][0], env, accessors=BASE_ACC)
+            want = "method" if c["fn"].endswith("name") else "method_id"
+            r1.require(oo == {("param", "did", want)}, (fn, "arg", want), "%s is not applied to did.%s(): %s" % (L.short(c["fn"]), want, sorted(map(str, oo))))
